@@ -161,6 +161,14 @@ def handle (op : String) (j : Json) : R Json := do
       | "left" => pure Align.left | "right" => pure Align.right | "first" => pure Align.first
       | x => throw s!"bad align {x}"
     return jMoments (concatRagged a cs)
+  | "zip" =>
+    let cs ← listF pCircuit j "circuits"
+    let a ← match (← strF j "align") with
+      | "left" => pure Align.left | "right" => pure Align.right | "first" => pure Align.first
+      | x => throw s!"bad align {x}"
+    match zipCircuits a cs with
+    | .ok c => return jMoments c
+    | .error e => return Json.str (errName e)
   | "wf" => return jBool (circuitWF (← pCircuit (← field j "circuit")))
   | _ => throw s!"unknown op {op}"
 
